@@ -215,7 +215,7 @@ func (n *Node) BuildSiblingAt(salt uint32, slot int, allowSameGenerator bool) (*
 	sib.Header.GeneratorAddress = k.Addr
 	// honest maxHeightGenerated of the slot owner on this chain (the tip is by somebody else)
 	if !same {
-		sib.Header.MaxHeightGenerated = n.LastGeneratedHeight(k.Addr)
+		sib.Header.MaxHeightGenerated = n.LastGeneratedHeightBelow(k.Addr, tip.Header.Height)
 	}
 	Resign(sib, n.SignerFor(tip.Header.Height, k))
 	return sib, true
